@@ -638,8 +638,49 @@ impl StepMonitor for MemMon {
             rep.count("unjudged_steps_ending_in_an_interpreter_error");
             return;
         }
+        self.region_registers(s, rep);
         self.write_monitor(s, rep);
         self.access_table(s, rep);
+    }
+}
+
+impl MemMon {
+    /// (3) The registers that delimit what a program owns ($ssp, $sp, $fp, $hp) and the
+    /// constants $zero/$one move only through the instructions that are specified to move
+    /// them; any other instruction naming one of them as a destination must be refused
+    /// (ReservedRegisterNotWritable). Ownership is judged from these registers, so an
+    /// instruction that rewrites one of them would turn stray writes into "owned" ones.
+    fn region_registers(&mut self, s: &Step, rep: &mut Report) {
+        if !matches!(s.end, StepEnd::Continue) {
+            return;
+        }
+        let Some(i) = &s.instr else { return };
+        use Instruction::*;
+        let frame_ops = matches!(i, CALL(_) | RET(_) | RETD(_));
+        let allowed = |reg: RegId| -> bool {
+            if reg == RegId::HP {
+                matches!(i, ALOC(_))
+            } else if reg == RegId::SP {
+                frame_ops || matches!(i, CFEI(_) | CFE(_) | CFSI(_) | CFS(_) | PSHL(_) | PSHH(_) | POPL(_) | POPH(_) | LDC(_))
+            } else if reg == RegId::SSP {
+                frame_ops || matches!(i, LDC(_))
+            } else if reg == RegId::FP {
+                frame_ops
+            } else {
+                false
+            }
+        };
+        for reg in [RegId::ZERO, RegId::ONE, RegId::SSP, RegId::SP, RegId::FP, RegId::HP] {
+            let k = reg.to_u8() as usize;
+            if s.pre.regs[k] != s.post.regs[k] && !allowed(reg) {
+                rep.violation(
+                    format!("C24|region register changed by an instruction that must not write it|{}|register {k}", s.opcode_name()),
+                    format!("{i:?}: register {k} {:#x} -> {:#x} (pc {})", s.pre.regs[k], s.post.regs[k], s.pre.pc()),
+                    || json!(null),
+                );
+            }
+        }
+        rep.count("region_register_steps_checked");
     }
 }
 
@@ -777,7 +818,7 @@ pub fn run(cfg: &Cfg) -> Report {
         rep.gate("steps_growing_the_heap", rep.counter("steps_growing_the_heap"), 500);
         rep.gate("cases_on_reused_memory", rep.counter("cases_on_reused_memory"), 500);
     }
-    rep.rule = "every single-stepped instruction of generated scripts/contracts (nested calls, callee ALOC, stack shrink/regrow, accesses aimed at $ssp/$sp/$hp/saved $hp boundaries, the caller's frame, code, tx image, balance table, end of memory): (1) bytes that differ between the address views before/after the step must lie in [$ssp, max $sp) or [$hp_post, prev_hp) or the VM's own write set of the opcode (CALL frame+code, LDC code + code-size word, balance entry, TRO output, PSH*, output finalisation at program end); newly accessible bytes read zero (also on reused, dirtied VM memory); (2) operand ranges of LB/LW/LHW/LQW, SB/SW/SHW/SQW, MCL(I), MCP(I), MEQ, LOGD, RETD, S256, K256, ECK1, ECR1, ED19 from the pre registers: inaccessible or unowned => panic from the expected reason set and never completes; accessible+owned => not refused for a memory reason. class = (diff|access, opcode, region class, outcome)".into();
+    rep.rule = "every single-stepped instruction of generated scripts/contracts (nested calls, callee ALOC, stack shrink/regrow, accesses aimed at $ssp/$sp/$hp/saved $hp boundaries, the caller's frame, code, tx image, balance table, end of memory): (1) bytes that differ between the address views before/after the step must lie in [$ssp, max $sp) or [$hp_post, prev_hp) or the VM's own write set of the opcode (CALL frame+code, LDC code + code-size word, balance entry, TRO output, PSH*, output finalisation at program end); newly accessible bytes read zero (also on reused, dirtied VM memory); (2) operand ranges of LB/LW/LHW/LQW, SB/SW/SHW/SQW, MCL(I), MCP(I), MEQ, LOGD, RETD, S256, K256, ECK1, ECR1, ED19 from the pre registers: inaccessible or unowned => panic from the expected reason set and never completes; accessible+owned => not refused for a memory reason. (3) $zero, $one, $ssp, $sp, $fp, $hp change only through the instructions specified to move them (ALOC; CFE/CFS/PSH/POP/LDC; CALL/RET/RETD). class = (diff|access, opcode, region class, outcome)".into();
     rep.assume("flat memory model: an address is accessible iff it is below the stack's high-water mark (raw stack extent) or at/above $hp; prev_hp = caller's saved $hp read from the call frame in memory at $fp + 120, 2^26 in a script");
     rep.assume("layout of the tx image (offset of a variable output) taken from fuel-tx (`outputs_offset_at`, `Output::size`)");
     rep.note("zero-length operands at addresses <= 2^26, self-jumps under single-stepping and steps that end in a non-panic interpreter error are counted, not judged; reads between $sp and the stack's high-water mark succeed in the VM and are counted (observed_reads_between_sp_and_stack_extent)");
